@@ -164,6 +164,20 @@ func (s *SessionVariables) SetEqualsWith(dst *SessionVariables) ( /*changed*/ bo
 	return changed, nil
 }
 
+// Clone returns an independent copy: a SET statement that fails at a later assignment is undone with it
+func (s *SessionVariables) Clone() *SessionVariables {
+	c := NewSessionVariables()
+	for name, v := range s.variables {
+		cp := *v
+		c.variables[name] = &cp
+	}
+	for name, v := range s.unused {
+		cp := *v
+		c.unused[name] = &cp
+	}
+	return c
+}
+
 // Delete delete variables with specific key
 func (s *SessionVariables) Delete(key string) {
 	delete(s.variables, formatVariableName(key))
